@@ -24,11 +24,12 @@ Objs == {<<k, id>> : k \in Keys, id \in Ids}
 VARIABLES order,      \* Seq(Keys) without repetition: iteration order
           held,       \* [Keys -> 0..2]: id of the species object held for the key (0: none)
           notified,   \* number of notifications so far
-          outcome, hist
-vars == <<order, held, notified, outcome, hist>>
+          outcome, hist,
+          touched     \* ghost: has anything been read since the last successful change (so that "read, then change" histories are explored)
+vars == <<order, held, notified, outcome, hist, touched>>
 
 Rng(s) == {s[i] : i \in 1..Len(s)}
-Init == order = <<>> /\ held = [k \in Keys |-> 0] /\ notified = 0 /\ outcome = "ok" /\ hist = <<>>
+Init == order = <<>> /\ held = [k \in Keys |-> 0] /\ notified = 0 /\ outcome = "ok" /\ hist = <<>> /\ touched = FALSE
 Log(e) == hist' = Append(hist, e)
 
 \* keys of a list in order of first appearance
@@ -39,19 +40,19 @@ LastId(sq, k) == LET idx == {i \in 1..Len(sq) : sq[i][1] = k} IN IF idx = {} THE
 
 SetList(sq) == /\ order' = Firsts(sq)
                /\ held' = [k \in Keys |-> LastId(sq, k)]
-               /\ notified' = notified + 1 /\ outcome' = "ok"
+               /\ notified' = notified + 1 /\ outcome' = "ok" /\ touched' = FALSE
                /\ Log([op |-> "set", arg |-> sq])
 Add(o) == /\ order' = IF o[1] \in Rng(order) THEN order ELSE Append(order, o[1])
           /\ held' = [held EXCEPT ![o[1]] = o[2]]
-          /\ notified' = notified + 1 /\ outcome' = "ok"
+          /\ notified' = notified + 1 /\ outcome' = "ok" /\ touched' = FALSE
           /\ Log([op |-> "add", arg |-> <<o>>])
 Clear == /\ order' = <<>> /\ held' = [k \in Keys |-> 0]
-         /\ notified' = notified + 1 /\ outcome' = "ok" /\ Log([op |-> "clear", arg |-> <<>>])
+         /\ notified' = notified + 1 /\ outcome' = "ok" /\ touched' = FALSE /\ Log([op |-> "clear", arg |-> <<>>])
 \* refused calls: set() of a list holding something that is not a Species (TypeError), add(None) (ValueError)
-Refused(which) == /\ UNCHANGED <<order, held, notified>>
+Refused(which) == /\ UNCHANGED <<order, held, notified, touched>>
                   /\ outcome' = (IF which = "set_wrong_type" THEN "TypeError" ELSE "ValueError")
                   /\ Log([op |-> which, arg |-> <<>>])
-Read == UNCHANGED <<order, held, notified>> /\ outcome' = "ok" /\ Log([op |-> "read", arg |-> <<>>])
+Read == UNCHANGED <<order, held, notified>> /\ outcome' = "ok" /\ touched' = TRUE /\ Log([op |-> "read", arg |-> <<>>])
 
 Lists == {<<>>} \cup {<<a>> : a \in Objs} \cup {<<a, b>> : a \in Objs, b \in Objs}
          \cup {<< <<<<"d", 1>>, 2>>, <<<<"c", 6>>, 1>>, <<<<"d", 1>>, 1>> >>, << <<<<"c", 6>>, 2>>, <<<<"d", 0>>, 1>>, <<<<"d", 1>>, 2>> >>}
@@ -79,7 +80,7 @@ ZEffBetweenCharges == NZ2 # 0 => LET zs == {k[2] : k \in {kk \in Ions : Dens(kk,
                                    \A z \in zs : (\A y \in zs : z <= y) => z * NZ <= NZ2
 NotifyOncePerMutation == [][notified' = notified + (IF hist' # hist /\ hist'[Len(hist')].op \in {"set", "add", "clear"} THEN 1 ELSE 0)]_vars
 
-View == <<order, held, notified, outcome>>
+View == <<order, held, notified, outcome, touched>>
 Emit == PrintT(ToJson([h |-> hist', order |-> order', held |-> {<<k, held'[k]>> : k \in Keys}, notified |-> notified', outcome |-> outcome',
                        zeff |-> ZEff', nion |-> NIon', dens |-> {<<o, Dens(o[1], o[2])>> : o \in Objs}]))
 =============================================================================
